@@ -26,14 +26,17 @@ type World struct {
 }
 
 // NewWorld builds the channel parameters (concrete) for own index own.
-func NewWorld(n, own int) *World {
+func NewWorld(n, own int) *World { return NewWorldNonce(n, own, 1) }
+
+// NewWorldNonce is NewWorld with a chosen nonce (another channel ID).
+func NewWorldNonce(n, own int, nonce int64) *World {
 	w := &World{N: n, Own: own, Stranger: simwallet.NewRandomAccount(cryptorand.Reader)}
 	parts := make([]map[wallet.BackendID]wallet.Address, n)
 	for i := 0; i < n; i++ {
 		w.Accs = append(w.Accs, simwallet.NewRandomAccount(cryptorand.Reader))
 		parts[i] = map[wallet.BackendID]wallet.Address{channel.TestBackendID: w.Accs[i].Address()}
 	}
-	p, err := channel.NewParams(60, parts, channel.NoApp(), big.NewInt(1), true, false, channel.Aux{})
+	p, err := channel.NewParams(60, parts, channel.NoApp(), big.NewInt(nonce), true, false, channel.Aux{})
 	rt.Assume(err == nil)
 	w.Params = p
 	return w
@@ -100,7 +103,7 @@ func ArbitraryMachine(w *World) (*channel.StateMachine, *Pre) {
 	}
 	// current transaction: absent exactly in the two initial phases
 	if pre.Phase >= channel.Funding {
-		pre.CurKind = 1 + rt.Choice(2)
+		pre.CurKind = 1 + rt.Choice(rt.Bound("curKinds", 2))
 		cur := w.State()
 		sigs := make([]wallet.Sig, w.N)
 		if pre.CurKind == 1 {
